@@ -6,7 +6,7 @@ ID=$1; shift
 S=/verif/seeded/$ID
 SEEDRUN=${SEEDRUN:-/root/seedrun}; SV=$SEEDRUN/verif; SR=$SEEDRUN/repo
 TIER=${TIER:-quick}
-git -C $SV checkout -q --detach $(git -C /verif rev-parse HEAD) || exit 2
+git -C $SV reset -q --hard; git -C $SV checkout -q --detach $(git -C /verif rev-parse HEAD) || exit 2
 git -C $SR checkout -q -- . ; git -C $SR checkout -q --detach $(git -C /repo rev-parse HEAD) || exit 2
 if ! git -C $SR apply --check $S/patch.diff 2>/dev/null; then
   git -C $SR apply -3 $S/patch.diff 2>/dev/null || patch -d $SR -p1 --fuzz=3 < $S/patch.diff >/dev/null || { echo "$ID: patch does not apply to current HEAD"; exit 3; }
